@@ -448,6 +448,10 @@ class Interp:
                 return r
         if isinstance(f, type):
             return self.instantiate(f, args, kwargs)
+        if not isinstance(f, (types.FunctionType, types.BuiltinFunctionType, types.BuiltinMethodType)):
+            cf = lookup_special(f, '__call__')
+            if cf is not None and is_repo_func(cf):
+                return self.call(cf, [f] + args, kwargs)       # instance of a repository class with __call__
         if isinstance(f, types.FunctionType) and getattr(f, '__wrapped__', None) is not None and is_repo_func(f.__wrapped__):
             # functools.lru_cache & co. are C wrappers; python-level wrappers from outside the repo: run natively
             pass
@@ -494,7 +498,13 @@ class Interp:
                 inst = cls.__new__(cls)
                 self.call(init, [inst] + list(args), kwargs)
                 return inst
-            return self.native(cls, [self.msg_arg(a) for a in args], kwargs)
+            inst = self.native(cls, [self.msg_arg(a) for a in args], kwargs)
+            if len(args) == 1 and is_sym(args[0]) and args[0].k == 'str':
+                try:
+                    inst._pyvc_msg = args[0]          # the symbolic message text (only inspected by C06's length bound)
+                except Exception:
+                    pass
+            return inst
         else:
             init = None
             for c in cls.__mro__:
